@@ -11,6 +11,7 @@ import vcommon as V
 
 sys.path.insert(0, os.path.join(V.VERIF, "translator"))
 import tables as T  # noqa
+import c05_names as TN  # noqa
 
 TABS = ["win1252", "ibm037", "ibm1047", "ibm1140"]
 
@@ -36,7 +37,7 @@ def utf16_of(cp):
     return [0xD800 + (cp >> 10), 0xDC00 + (cp & 1023)]
 
 
-def gen_cases(ctx):
+def gen_cases(ctx, tabs=None, names=None):
     """returns list of (kind, request-line).  Everything derives from ctx.rng (VERIF_SEED)."""
     rng = ctx.rng
     thorough = ctx.tier == "thorough"
@@ -128,6 +129,23 @@ def gen_cases(ctx):
         for c in [0x10000, 0x10041, 0x100A9, 0x1FFFF, 0x20AC + 0x10000, 0x10FFFF, 0x110000, 0xFFFFFFFF] + \
                  [0x10000 + rng.randrange(0x100000) for _ in range(200)]:
             add("can-supp", "can %s %d" % (t, c))
+    # -- 8b. the first / last / middle records of every to-table (the ends of xlatOneTo's binary search), one
+    #        unit per request, in both UnRepOpts modes, and canTranscodeTo of exactly those units and their neighbours
+    for t in TABS:
+        to = (tabs or {}).get(t, {}).get("to", [])
+        if to:
+            n = len(to)
+            idxs = sorted(set([0, 1, 2, n // 2 - 1, n // 2, n // 2 + 1, n - 3, n - 2, n - 1] +
+                              [rng.randrange(n) for _ in range(12)]))
+            for i in idxs:
+                u = to[i][0]
+                for v in (u - 1, u, u + 1):
+                    if 0 < v <= 0xFFFF:
+                        add("tab-edge-throw", "tabto %s 4 1 %s" % (t, hx([v], 4)))
+                        add("tab-edge-rep", "tabto %s 4 0 %s" % (t, hx([v], 4)))
+                        add("tab-edge-can", "can %s %d" % (t, v))
+                add("tab-edge-ctx", "tabto %s 8 0 %s" % (t, hx([0x41, u, 0x42], 4)))
+                add("tab-edge-room", "tabto %s 1 1 %s" % (t, hx([u, 0x41], 4)))
     for enc in ("utf8", "latin1", "ascii"):
         for c in [0, 0x7F, 0x80, 0xFF, 0x100, 0xFFFF, 0x10000, 0x10FFFF, 0x110000, 0xFFFFFFFF]:
             add("can-intrinsic", "can %s %d" % (enc, c))
@@ -154,6 +172,64 @@ def gen_cases(ctx):
     fams = {"utf8": decl, "u16b": [x for c in decl for x in (0, c)], "u16l": [x for c in decl for x in (c, 0)],
             "u4b": [x for c in decl for x in (0, 0, 0, c)], "u4l": [x for c in decl for x in (c, 0, 0, 0)],
             "ebcdic": [0x4C, 0x6F, 0xA7, 0x94, 0x93, 0x40]}
+    # every length 0..26 of each family's declaration start, with and without the family's byte order mark, and of
+    # the byte order marks alone (the recognizer's length tiers: < 2, < 4, < prefix length, EBCDIC's strict >)
+    boms = {"utf8": [0xEF, 0xBB, 0xBF], "u16b": [0xFE, 0xFF], "u16l": [0xFF, 0xFE], "u4b": [0, 0, 0xFE, 0xFF],
+            "u4l": [0xFF, 0xFE, 0, 0], "u4-2143": [0, 0, 0xFF, 0xFE], "u4-3412": [0xFE, 0xFF, 0, 0]}
+    add("probe-len", "probe -")
+    for nm, pre in fams.items():
+        full = pre + ([0x41, 0x42] if nm in ("utf8", "ebcdic") else pre[-4:])
+        for k in range(1, min(len(full), 27) + 1):
+            add("probe-len", "probe %s" % hx(full[:k], 2))
+        for bn, bom in boms.items():
+            for k in (0, 1, 2, 3, 4, len(pre), len(pre) + 1):
+                add("probe-bom-len", "probe %s" % hx(bom + full[:k], 2))
+    for bn, bom in boms.items():
+        for k in range(1, len(bom) + 1):
+            add("probe-bom-len", "probe %s" % hx(bom[:k], 2))
+    for _ in range(600):
+        pre = rng.choice(list(fams.values()) + list(boms.values()))
+        q = list(pre[:rng.randrange(1, len(pre) + 1)]) + [rng.choice(alpha) for _ in range(rng.randrange(0, 4))]
+        if rng.random() < 0.5 and q:
+            q[rng.randrange(len(q))] = rng.choice(alpha)
+        add("probe-rand", "probe %s" % hx(q, 2))
+    # -- 11. encoding names: encodingForName / nameForEncoding / makeNewTranscoderFor by name and by enumerator /
+    #        XMLReader::setEncoding on entities of every detected family
+    if names:
+        def units(txt):
+            return [ord(ch) for ch in txt]
+        def mixcase(u):
+            return [c + 32 if 0x41 <= c <= 0x5A and rng.random() < 0.5 else c for c in u]
+        known = []
+        for u in ([m[0] for m in names["maps"]] + names["name_map"] + names["gen16"] + names["gen4"] +
+                  [n for cl, _ in names["chain"] for n in cl]):
+            if u not in known:
+                known.append(u)
+        # names no table knows; they go to the transcoding service (model: "service"): real ICU names and junk
+        foreign = [units(x) for x in ("SHIFT_JIS", "ISO-8859-2", "KOI8-R", "X-NO-SUCH-ENCODING", "UTF-7", "EBCDIC", "UTF-16L",
+                                      "UTF-8 ", "UCS-4 (XE)", "UTF_8", "UTF-16 (LE", "IBM-037", "WINDOWS-1251")]
+        for e in range(0, 10):
+            add("namefor", "namefor %d" % e)
+            add("mkenum", "mkenum %d" % e)
+        add("namefor", "namefor 999")
+        add("mkenum", "mkenum 999")
+        allnames = known + foreign
+        for u in allnames:
+            variants = [u, [c + 32 if 0x41 <= c <= 0x5A else c for c in u], mixcase(u), mixcase(u)]
+            if len(u) > 1:
+                variants += [u[:-1], u + [0x58], u[:1] + [u[1] ^ 1] + u[2:]]      # near misses
+            for v in variants:
+                add("encfor", "encfor %s" % hx(v, 4))
+                add("mktrans", "mktrans %s" % hx(v, 4))
+        heads = {"utf8": fams["utf8"], "utf8-bom": boms["utf8"] + fams["utf8"], "u16l": fams["u16l"], "u16b": fams["u16b"],
+                 "u16l-bom": boms["u16l"] + fams["u16l"], "u16b-bom": boms["u16b"] + fams["u16b"],
+                 "u4l": fams["u4l"], "u4b": fams["u4b"], "u4l-bom": boms["u4l"] + fams["u4l"], "u4b-bom": boms["u4b"] + fams["u4b"],
+                 "ebcdic": fams["ebcdic"] + [0xA5], "nodecl": [0x3C, 0x72, 0x2F, 0x3E], "u16l-bom-only": boms["u16l"] + [0x3C, 0],
+                 "u16b-bom-only": boms["u16b"] + [0, 0x3C]}
+        for hn, raw in heads.items():
+            for u in allnames:
+                add("setenc/" + hn, "setenc %s %s" % (hx(raw, 2), hx(u, 4)))
+                add("setenc-case/" + hn, "setenc %s %s" % (hx(raw, 2), hx(mixcase(u), 4)))
     for nm, pre in fams.items():
         for k in range(1, len(pre) + 3):
             add("probe-prefix", "probe %s" % hx((pre + [0x41, 0x42])[:k], 2))
@@ -275,7 +351,70 @@ def ill_formed16(units):
     return False
 
 
-def spec_check(req, impl, xm):
+_DEC = {}
+
+
+def table_dec(t, xh):
+    """the code page as the implementation decodes it: byte -> unit (the definition the Spec of the encode
+    direction is read against)"""
+    if t not in _DEC:
+        rc, out, _ = run_bin(xh, ["tabfrom %s 256 %s" % (t, hx(list(range(256)), 2))])
+        us = parse_units(out[0].split()[2], 4) if out and out[0].startswith("ok") else []
+        _DEC[t] = us if len(us) == 256 else None
+    return _DEC[t]
+
+
+def tab_spec(req, impl, xh, f24_known=True):
+    """Spec of the encode direction of a single-byte code page: a unit some byte decodes to is representable:
+    it must be written as a byte that decodes back to it in EVERY UnRepOpts mode and canTranscodeTo must be true;
+    a replacement byte / Trans_Unrepresentable / canTranscodeTo false is legal only for the other units.
+    U+0000 is left out (the tables use 0 as "no mapping"); IBM1047 U+0085 is finding F24."""
+    a = req.split()
+    dec = table_dec(a[1], xh)
+    if not dec:
+        return "unknown", ""
+    rng_ = set(dec)
+    def repres(u):
+        return u in rng_
+    def exempt(u):
+        return u == 0 or (a[1] == "ibm1047" and u == 0x85 and f24_known)
+    if a[0] == "can":
+        c = int(a[2])
+        if c == 0 or exempt(c):
+            return "ok", ""
+        want = c <= 0xFFFF and repres(c)
+        if impl == "ok 1" and not want:
+            return "violates", "canTranscodeTo true for U+%04X, which no byte of %s decodes to" % (c, a[1])
+        if impl == "ok 0" and want:
+            return "violates", "canTranscodeTo false for U+%04X, which byte %02X of %s decodes to" % (c, dec.index(c), a[1])
+        return "ok", ""
+    if a[0] == "tabto":
+        units, maxb, thr = parse_units(a[4], 4), int(a[2]), a[3] == "1"
+        todo = units[:min(len(units), maxb)]
+        if impl.startswith("err"):
+            if thr and any((not repres(u)) or u == 0 for u in todo):
+                return "ok", ""
+            return "violates", "exception although every unit of the block is representable in %s" % a[1]
+        if not impl.startswith("ok"):
+            return "violates", "unexpected answer"
+        p = impl.split()
+        bs = parse_units(p[2], 2) if len(p) > 2 else []
+        if len(bs) > len(todo) or int(p[1]) != len(bs):
+            return "violates", "bytes written / units eaten out of step"
+        for u, b_ in zip(todo, bs):
+            if exempt(u):
+                continue
+            if repres(u):
+                if dec[b_] != u:
+                    return "violates", ("U+%04X is representable in %s (byte %02X) but was written as %02X, which decodes to U+%04X"
+                                        % (u, a[1], dec.index(u), b_, dec[b_]))
+            elif thr:
+                return "violates", "U+%04X is not representable in %s but was written as %02X under UnRep_Throw" % (u, a[1], b_)
+        return "ok", ""
+    return "unknown", ""
+
+
+def spec_check(req, impl, xm, xh=None):
     """decide with the extracted Spec whether the implementation's answer `impl` to request `req` violates the
     property.  returns (verdict, detail): verdict in {'ok','violates','unknown'}"""
     a = req.split()
@@ -380,6 +519,11 @@ def spec_check(req, impl, xm):
                 want = "UTF_16L"
             elif b[:3] == [0xEF, 0xBB, 0xBF]:
                 want = "UTF_8"
+        rc, out, _ = run_bin(xm, ["spec_probe " + a[1]])
+        sd = out[0].split()[1] if out and out[0].startswith("ok") else None
+        if want is not None and sd is not None and want != sd:
+            return "violates", "python and extracted Appendix F oracles disagree (%s / %s)" % (want, sd)
+        want = want or sd
         if want is None:
             return "unknown", ""
         return ("ok", "") if impl == "ok " + want else ("violates", "Appendix F: these bytes start a %s entity" % want)
@@ -387,8 +531,47 @@ def spec_check(req, impl, xm):
         c = int(a[2])
         if a[1] in TABS and c > 0xFFFF and impl == "ok 1":
             return "violates", "supplementary code point reported representable in a single-byte code page"
+        if a[1] in TABS and xh:
+            return tab_spec(req, impl, xh)
         return "unknown", ""
+    if op == "tabto" and xh:
+        return tab_spec(req, impl, xh)
+    if op == "setenc":
+        return setenc_spec(req, impl, xm)
     return "unknown", ""
+
+
+FAM_OF_PROBE = {"UTF_8": "byte", "UTF_16L": "16L", "UTF_16B": "16B", "UCS_4L": "32L", "UCS_4B": "32B", "EBCDIC": "ebcdic"}
+# XML 1.0 4.3.3 / IANA: what a declared name promises (the python copy of Spec05s.spec_names + byte encodings)
+DECL_FAM = {"UTF-8": ["byte"], "UTF8": ["byte"], "US-ASCII": ["byte"], "ASCII": ["byte"], "ISO-8859-1": ["byte"],
+            "WINDOWS-1252": ["byte"], "LATIN1": ["byte"], "ISO-8859-2": ["byte"], "KOI8-R": ["byte"], "SHIFT_JIS": ["byte"],
+            "WINDOWS-1251": ["byte"],
+            "UTF-16": ["16L", "16B"], "UCS-2": ["16L", "16B"], "ISO-10646-UCS-2": ["16L", "16B"], "UTF16": ["16L", "16B"],
+            "UTF-16LE": ["16L"], "UTF-16 (LE)": ["16L"], "UTF-16BE": ["16B"], "UTF-16 (BE)": ["16B"],
+            "UCS-4": ["32L", "32B"], "UCS4": ["32L", "32B"], "UTF-32": ["32L", "32B"], "ISO-10646-UCS-4": ["32L", "32B"],
+            "UCS-4LE": ["32L"], "UCS-4 (LE)": ["32L"], "UCS-4BE": ["32B"], "UCS-4 (BE)": ["32B"],
+            "IBM037": ["ebcdic"], "IBM1047": ["ebcdic"], "IBM1140": ["ebcdic"], "EBCDIC-CP-US": ["ebcdic"], "IBM01140": ["ebcdic"]}
+
+
+def setenc_spec(req, impl, xm):
+    """a declaration whose name contradicts the family detected from the entity's bytes must not be accepted
+    (the property: "a declaration that contradicts the detected encoding family is reported"); a compatible one
+    must not be rejected.  The detected family is computed by the extracted Spec (spec_detect)."""
+    a = req.split()
+    name = "".join(chr(c) for c in parse_units(a[2], 4)).upper()
+    fams = DECL_FAM.get(name)
+    if fams is None:
+        return "unknown", ""
+    rc, out, _ = run_bin(xm, ["spec_probe " + a[1]])
+    sensed = FAM_OF_PROBE[out[0].split()[1]]
+    compatible = sensed in fams
+    if impl.startswith("ok 1") and not compatible:
+        return "contradiction-accepted", "declared %s in an entity detected as %s was accepted" % (name, sensed)
+    if impl.startswith("ok 0") and compatible:
+        return "violates", "declared %s in an entity detected as %s was rejected" % (name, sensed)
+    if impl.startswith("err") and compatible and not impl.endswith("Trans_CantCreateCvtrFor"):
+        return "violates", "compatible declaration raised " + impl
+    return "ok", ""
 
 
 def run(ctx):
@@ -404,6 +587,7 @@ def run(ctx):
         T.gen_utf8()
         T.gen_tables()
         T.gen_recognizer()
+        names = TN.generate()
     except Exception as e:
         ctx.note("translator failed: %r" % (e,))
         ctx.violation("translator", {"what": "translator can no longer read the transcoder tables", "error": repr(e)},
@@ -429,13 +613,26 @@ def run(ctx):
         r = json.load(open(ctx.replay))
         cases = [("replay", r["request"])]
     else:
-        cases = gen_cases(ctx)
+        cases = gen_cases(ctx, T.gen_tables(), names)
     # known-finding witnesses are replayed first
     wit = [("known-F7", "u8to 8 1 DC00"), ("known-F7", "u8to 8 1 D8000041"), ("known-F24", "tabfrom ibm1047 1 15")]
     cases = wit + cases
+    F560_WIT = "setenc 3C3F786D6C20 005500540046002D00310036004C0045"     # "<?xml " in bytes, declared UTF-16LE
+    F561_WIT = "setenc FFFE3C003F0078006D006C002000 00490053004F002D0038003800350039002D0031"   # UTF-16LE, declared ISO-8859-1
+    wit2 = [("known-F560", F560_WIT), ("known-F561", F561_WIT)]
+    cases = cases[:3] + wit2 + cases[3:]
     lines = [c[1] for c in cases]
     rc1, impl, err1 = run_bin(xh, lines)
-    rc2, model, err2 = run_bin(xm, lines)
+    # the reader with or without the repair fixes/C05-setencoding-family.patch: decided by the witness of F560
+    f560_present = len(impl) > 3 and impl[3].startswith("ok 1")
+    repaired = "0" if f560_present else "1"
+    mlines = [("setenc %s %s" % (repaired, l[7:])) if l.startswith("setenc ") else l for l in lines]
+    rc2, model, err2 = run_bin(xm, mlines)
+    # names no table of the library knows go to the transcoding service (ICU), which is not modelled: whether it
+    # can serve the name is not compared
+    for k in range(min(len(impl), len(model))):
+        if model[k].endswith(" service") and (impl[k].endswith("Trans_CantCreateCvtrFor") or impl[k] == model[k]):
+            impl[k] = model[k]
     if rc1 != 0 or len(impl) != len(lines):
         ctx.violation("harness-crash", {"what": "implementation harness crashed or lost lines", "rc": rc1,
                                         "stderr": err1[-2000:], "answered": len(impl), "asked": len(lines),
@@ -464,8 +661,8 @@ def run(ctx):
     viol = 0
     unexplained = []
     for kind, req, i, m in divergences[:200]:
-        verdict, detail = spec_check(req, i, xm)
-        if verdict in ("violates", "illformed-accepted"):
+        verdict, detail = spec_check(req, i, xm, xh)
+        if verdict in ("violates", "illformed-accepted", "contradiction-accepted"):
             viol += 1
             if viol <= 5:
                 ctx.violation("divergence", {"request": req, "impl": i, "model": m, "spec": detail, "kind": kind,
@@ -539,6 +736,63 @@ def run(ctx):
                               "(witness `tabfrom ibm1047 1 15`)")
         else:
             ctx.violation("F24", {"request": cases[k][1], "impl": impl[k], "what": "IBM1047 0x15 decodes to LF"})
+    # F560 / F561: declaration contradicting the detected family accepted by XMLReader::setEncoding.  Every setenc
+    # case (agreeing with the model or not) is judged by the Spec; contradictions accepted are attributed to F560
+    # when the declared name is one the recognizer knows (encodingForName != OtherEncoding: impl reports an
+    # enumerator < 999), to F561 otherwise
+    n560 = n561 = 0
+    first560 = first561 = None
+    sk = [k for k, (kind, req) in enumerate(cases) if req.startswith("setenc ")]
+    if sk:
+        rcP, outP, _ = run_bin(xm, ["spec_probe " + cases[k][1].split()[1] for k in sk])
+        for k, so in zip(sk, outP):
+            a = cases[k][1].split()
+            name = "".join(chr(c) for c in parse_units(a[2], 4)).upper()
+            fams = DECL_FAM.get(name)
+            if fams is None:
+                continue
+            checked_s = FAM_OF_PROBE[so.split()[1]]
+            comp = checked_s in fams
+            if impl[k].startswith("ok 1") and not comp:
+                code = int(impl[k].split()[2])
+                if code != 999:
+                    n560 += 1
+                    first560 = first560 or (cases[k][1], impl[k], name, checked_s)
+                else:
+                    n561 += 1
+                    first561 = first561 or (cases[k][1], impl[k], name, checked_s)
+            elif impl[k].startswith("ok 0") and comp and impl[k] == model[k]:
+                ctx.violation("spec", {"request": cases[k][1], "impl": impl[k],
+                                       "what": "declaration %s compatible with the detected family %s was rejected" % (name, checked_s)})
+                break
+    for fid, n, first in (("F560", n560, first560), ("F561", n561, first561)):
+        if n:
+            if ctx.find_known(fid):
+                ctx.known_finding(fid, "XMLReader::setEncoding accepts a declaration that contradicts the detected encoding "
+                                  "family (%s declared in an entity detected as %s; witness `%s` -> %s); %d generated cases"
+                                  % (first[2], first[3], first[0], first[1], n))
+            else:
+                ctx.violation(fid, {"request": first[0], "impl": first[1],
+                                    "what": "declaration %s contradicts the detected family %s but was accepted" % (first[2], first[3])})
+    # Spec on agreeing answers: probe (extracted Appendix F decision) and the encode direction of the tables
+    pk = [k for k, (kind, req) in enumerate(cases) if req.startswith("probe ")]
+    if pk and not ctx.violations:
+        rcP, outP, _ = run_bin(xm, ["spec_probe " + cases[k][1].split()[1] for k in pk])
+        for k, so in zip(pk, outP):
+            checked += 1
+            if impl[k] != so:
+                ctx.violation("spec", {"request": cases[k][1], "impl": impl[k], "spec": so,
+                                       "what": "recognizer answer differs from XML 1.0 Appendix F (spec_detect)"})
+                break
+    if not ctx.violations:
+        f24k = bool(ctx.find_known("F24"))
+        for k, (kind, req) in enumerate(cases):
+            if (req.startswith("tabto ") or (req.startswith("can ") and req.split()[1] in TABS)) and impl[k] == model[k]:
+                v, d = tab_spec(req, impl[k], xh, f24k)
+                checked += 1
+                if v == "violates":
+                    ctx.violation("spec", {"request": req, "impl": impl[k], "what": d})
+                    break
     # single-byte tables, Spec on the implementation's answers (statement of T05_tab_roundtrip read on the real
     # library; this is also the refuter of the table obligations): a unit the table can encode decodes back to
     # itself, and every byte decodes to a unit that encodes to a byte with the same decoding.
